@@ -295,6 +295,19 @@ def deploy_mc(which):
     return f
 
 
+LIVE = ['Live_C10_ObjectsRepaired', 'Live_C10_Quiescent', 'Live_C10_TeardownCompletes']
+
+
+def live_mc(tier):
+    """liveness of the design model spec/PKO.tla under fairness (FixedSpec: fixed desired state; third-party edits, workload changes and
+    restarts bounded by the budgets; no state constraint): every active set ends up repaired, the system falls silent, teardown completes"""
+    if tier == 'quick':
+        return [dict(name='live-single3-b211', instance='single3', budgets=(2, 1, 1), invariants=['TypeOK'], spec='FixedSpec', props=LIVE, constraint=False),
+                dict(name='live-handoverfixed-b111', instance='handoverfixed', budgets=(1, 1, 1), invariants=['TypeOK'], spec='FixedSpec', props=LIVE, constraint=False)]
+    return [dict(name='live-single3-b321', instance='single3', budgets=(3, 2, 1), invariants=['TypeOK'], spec='FixedSpec', props=LIVE, constraint=False, timeout=3000),
+            dict(name='live-handoverfixed-b211', instance='handoverfixed', budgets=(2, 1, 1), invariants=['TypeOK'], spec='FixedSpec', props=LIVE, constraint=False, timeout=3000)]
+
+
 MCINV = {
     'C01': ['Inv_C01_WriteOnlyIfPermitted', 'Inv_C01_PermittedIsDone'],
     'C02': ['Act_C02_RevisionMonotone', 'Inv_C02_SingleController', 'Inv_C02_NoTakeFromNewer', 'Act_C02_RevisionFixed'],
@@ -350,7 +363,7 @@ CHECKS = {
         ('pause-atomic', ROLLOUT + ',' + HANDOVER + ',collision', 'pause', 'atomic', 120, 2000, 80),
         ('pause-api', ROLLOUT + ',' + HANDOVER + ',collision', 'pause', 'api', 120, 2000, 150),
         ('deploy-pause', DEPLOY, 'deploy-pause', 'atomic', 80, 1500, 160)])),
-    'C10': dict(level='fault_enumeration', invariants=INV['C10'], assumptions=ASSUME + [
+    'C10': dict(level='fault_enumeration', invariants=INV['C10'], mc=live_mc, assumptions=ASSUME + [
         'fair schedule after the last disturbance = round-robin over all PKO objects, workload controller makes Widgets Ready',
         'drift domain: content edits, deletion, cache-label removal, revision-annotation removal of managed objects (owner edits are takeovers, see C01)'],
         jobs=lambda tier, seed: [
@@ -445,7 +458,7 @@ TV = 'TLC trace validation: every API call of the real controllers (built from /
 TECHNIQUES = {
     'C07': 'TLA+ model-based: exhaustive TLC check of the revision-layer design model spec/PKODeploy.tla (ObjectDeployment controller per API call, with and without cache lag; design-level reproduction of the known finding as negative control); ' + TV,
     'C08': 'TLA+ model-based: exhaustive TLC check of the revision-layer design model spec/PKODeploy.tla (archive / prune decisions per API call); ' + TV,
-    'C10': 'TLA+ model-based fault enumeration: a staged scenario is run once undisturbed and once per API-call index x disturbance kind on the real controllers; TLC (spec/TraceObs.tla) tracks the store from the events and compares its end state with the reference digest',
+    'C10': 'TLA+ model-based fault enumeration: a staged scenario is run once undisturbed and once per API-call index x disturbance kind on the real controllers; TLC (spec/TraceObs.tla) tracks the store from the events and compares its end state with the reference digest; plus TLC liveness checking of the design model spec/PKO.tla under fairness (FixedSpec: repaired, quiescent, teardown completes)',
     'C11': 'TLA+ model-based: preflight decision table (classes x owner kinds x rollout/teardown) run through the real controllers; ' + TV + ' with the row classes as independent oracle',
     'C12': 'TLA+ model-based: exhaustive TLC check of the reference model spec/DynCache.tla (intended + as-found variants as negative controls); enumerated and random operation sequences and concurrent stress on the real dynamiccache.Cache validated by TLC against the model (spec/TraceDynCache.tla: state and result equality after every call)',
     'C13': 'TLA+ model-based: rendering specified as a pure function (spec/Render.tla); abstract packages concretised and rendered repeatedly by the real pipeline; TLC (spec/TraceRender.tla) compares every outcome with Expected(p)',
